@@ -482,10 +482,43 @@ def r9(ctx, facts):
     r.note("%d bodies mention ColumnType, %d mention the `frozen` field, %d branch on it" % (len(pop), n, m))
 
 
+def r10(ctx, facts):
+    """vectors: `vector<T, N>` takes exactly N elements whatever T is. serialize_vector compares the sequence length with the
+    declared dimension before it touches the cell writer, for fixed-size and variable-size element types alike."""
+    r = ctx.rule("R10", "serialize_vector: the element count is compared with the declared dimension before the cell writer is used, on every path", floor=1)
+    b = facts.one(r"^scylla_cql_core::serialize::value::serialize_vector$")
+    names = {b.local_name(l): l for l in range(1, b.argc + 1)}
+    if "len" not in names or "dimensions" not in names:
+        raise AnchorLost("serialize_vector: parameters `len` / `dimensions` not found (%s)" % sorted(n for n in names if n))
+    want = {names["len"], names["dimensions"]}
+    cmps = []
+    for bb in sorted(b.live_blocks):
+        for st in b.stmts(bb):
+            if st[0] == "A" and st[2][0] == "bin" and st[2][1] in ("Ne", "Eq"):
+                locs = set()
+                for op in st[2][2:4]:
+                    locs |= backward_slice(b, op)[0]
+                if want <= locs:
+                    cmps.append(bb)
+    if not cmps:
+        r.instance("dimension-compared", False, "serialize_vector no longer compares `len` with `dimensions`", b.span)
+        return
+    # the block where the comparison is branched on
+    sw = [bb for bb in cmps]
+    uses = [c for bb, c in b.calls() if bb in b.live_blocks and any(
+        a[0] in ("c", "m") and "CellWriter" in b.local_ty(a[1][0]) and "&" not in b.local_ty(a[1][0]) for a in c.args)]
+    if not uses:
+        raise AnchorLost("serialize_vector: no call consuming the CellWriter")
+    for k, c in enumerate(uses):
+        r.instance("dimension-check-before-writer#%d" % k, any(b.dominates(x, c.bb) for x in sw),
+                   "the cell writer is used (%s) on a path that never compared the number of elements with the vector's dimension: for that "
+                   "element type a sequence of the wrong length is accepted and sent" % (c.name or c.decl or "?").split("::")[-1], c.span)
+
+
 def check(ctx):
     facts = inline_view(ctx.facts("default"))
     config = ctx.alias.get("default", "default")   # the thorough tier re-runs this module over `full` and `unstable`
-    for fn in (lambda c, f: r1_r2(c, f, config), r3, r4, r5, r6, r7, r8, r9):
+    for fn in (lambda c, f: r1_r2(c, f, config), r3, r4, r5, r6, r7, r8, r9, r10):
         try:
             fn(ctx, facts)
         except AnchorLost as ex:
